@@ -50,6 +50,14 @@ pub fn programs(tier: Tier) -> ProgramSet {
             let source = render(&spec);
             out.push(Program { idx: 0, label: format!("{} [{}]", e.label, if custom { "custom error" } else { "standard error" }), k: e.k, spec, aux: json!(null), source });
         }
+        // an error type that mentions the enum's own type parameter
+        if e.spec.generics.iter().any(|g| matches!(g, Generic::Type { .. })) {
+            let mut spec = e.spec.clone();
+            spec.parse_err = false;
+            spec.extra_attrs.push("#[strum(parse_err_ty = vf_core::MyErrG<T>, parse_err_fn = vf_core::my_err_g)]".into());
+            let source = render(&spec);
+            out.push(Program { idx: 0, label: format!("{} [custom error type mentioning T]", e.label), k: e.k + 1, spec, aux: json!({"generic_err": true}), source });
+        }
     }
     let mut exm = std::collections::BTreeMap::new();
     exm.insert("overlapping spellings".to_string(), ex as u64);
@@ -58,7 +66,8 @@ pub fn programs(tier: Tier) -> ProgramSet {
 
 pub fn render(spec: &EnumSpec) -> String {
     let derives = ["Debug", "PartialEq", "strum::EnumString"];
-    let err_ty = if spec.parse_err { "vf_core::MyErr" } else { "strum::ParseError" };
+    let generic_err = spec.extra_attrs.iter().any(|a| a.contains("MyErrG"));
+    let err_ty = if generic_err { "vf_core::MyErrG<u8>" } else if spec.parse_err { "vf_core::MyErr" } else { "strum::ParseError" };
     let call = format!(
         "let _t1: fn(&str) -> Result<EC, {e}> = <EC as core::str::FromStr>::from_str;\n    let _t2: Option<<EC as core::str::FromStr>::Err> = None::<{e}>;\n    let _t3: Option<<EC as core::convert::TryFrom<&str>>::Error> = None::<{e}>;\n    vf_core::props::c18::explore(ctx, &mut from_str, &mut try_from);",
         e = err_ty
@@ -68,7 +77,7 @@ pub fn render(spec: &EnumSpec) -> String {
 
 pub fn explore(ctx: &mut Ctx, from_str: &mut dyn FnMut(&str) -> Obs, try_from: &mut dyn FnMut(&str) -> Obs) {
     let spec = ctx.spec().clone();
-    let custom = spec.parse_err;
+    let custom = spec.parse_err || spec.extra_attrs.iter().any(|a| a.contains("MyErrG"));
     let inp = family_inputs(ctx);
     // counter discipline, checked around every single call
     let mut f1 = |s: &str| -> Obs {
